@@ -247,6 +247,9 @@ func c07RunConcurrent(r *Rng, dir string) (string, Result) {
 		stack = "sql"
 	}
 	mode := []string{"U", "E", "S"}[r.Intn(3)]
+	if stack == "fs" && (r.s>>9)%3 == 0 { // a third of the filesystem runs go through the HTTP handlers (reads the PRNG state without advancing it)
+		stack = "http"
+	}
 	env, err := metaOpen(dir, stack)
 	if err != nil {
 		return "mb:" + tokBytes("setup-error"), Result{Out: "SETUP-ERROR", Oracle: "FAIL:setup " + err.Error()}
